@@ -43,7 +43,7 @@ klass("Symbol", 1, "esp_kconfiglib.core", fields={
     "_loaded_as_default": field("any", "mut"),
     "_was_set": field("any", "mut"),
     "_user_source": field("any", "mut"),
-    "_invalidating": field("bool", "mut"),
+    "_invalidating": field("bool", "inv", inv="inv_invalidating"),
     "_dependents": field("set", "imm"),
 }, props=["str_value", "bool_value", "visibility", "assignable", "config_string", "name_and_loc", "type"],
    methods=["set_value", "unset_value", "has_active_default_value", "value_is_valid", "_assignable", "_invalidate",
@@ -64,7 +64,7 @@ klass("Choice", 2, "esp_kconfiglib.core", fields={
     "_cached_assignable": field("any", "inv"),
     "_cached_selection": field("any", "inv", inv="inv_cached_selection"),
     "_was_set": field("any", "mut"),
-    "_invalidating": field("bool", "mut"),
+    "_invalidating": field("bool", "inv", inv="inv_invalidating"),
     "_dependents": field("set", "imm"),
 }, props=["str_value", "bool_value", "visibility", "assignable", "selection", "name_and_loc", "type"],
    methods=["set_value", "unset_value", "_assignable", "_selection", "_selection_from_defaults", "_invalidate",
